@@ -251,6 +251,21 @@ template <sz R, sz C> void shape_unary_case(std::string const &text, op<R, C> co
     }
   }
   {
+    // the scalar may alias an entry of the matrix itself
+    static std::string const fn = "matrix_scalar_alias<" + shape(R, C) + ">";
+    for (sz j = 0; j < R * C; ++j)
+    {
+      if (!vrt::begin_text(fn.c_str(), fn + " j=" + std::to_string(j) + " A=" + text))
+        continue;
+      vrt::nontrivial(!rmzero(a) && a.d[j] != 0 && a.d[j] != 1);
+      rmat<R, C> const want = rscal(a.d[j], a);
+      smat<R, C> m = s;
+      m *= m.storage()[j];
+      C14_EQ(rd(m), want, fn + ":compound", "A*=A[j]");
+      C14_EQ(rd(s * s.storage()[j]), want, fn + ":free", "A*A[j]");
+    }
+  }
+  {
     static std::string const fn = "identity_neutral<" + shape(R, C) + ">";
     if (vrt::begin_text(fn.c_str(), fn + " A=" + text))
     {
